@@ -90,6 +90,7 @@ static inline uint64_t fnv(uint64_t h, const void *p, size_t n) { const unsigned
 static inline uint64_t fnvs(uint64_t h, const std::string &s) { return fnv(h, s.data(), s.size()); }
 
 struct HarnessError { std::string msg; };
+struct Hang { std::string key, text; };   // a simulated program that stops making progress: reported as a violation (after the usual double replay), not as a harness error
 inline void Scenario::on_livelock(World &, Proc &p) { throw HarnessError{"livelock: " + p.name + " repeats the same calls forever and no other process can run"}; }
 
 struct World {
@@ -142,6 +143,7 @@ struct World {
   // a violation after which the execution can meaningfully continue (used where several independent cases share one
   // execution, so that every failing case is reported, not only the first)
   std::vector<std::pair<std::string, std::string>> softs;
+  long hang_ms = 20000;   // real time without a request after which a simulated program counts as hanging in user space
   long livelock_after = 1000;   // identical iterations (nobody else runnable) that count as a busy loop; scenarios feeding long uniform inputs raise it
   bool crash_soft = false; std::string san_log_prefix, crash_context;   // how a crash of a simulated program is reported (ops.hpp VK_FATAL)
   void soft_violation(const std::string &key0, const std::string &text) { std::string key = keyfix(key0); for (auto &s : softs) if (s.first == key) return; if (softs.size() < 64) softs.push_back({key, text}); }
@@ -181,7 +183,12 @@ struct World {
       struct timespec ts = {0, 5 * 1000 * 1000};
       syscall(SYS_futex, &shm->ctl_futex, FUTEX_WAIT, v, &ts, 0, 0);
       waited_ms += 5;
-      if (waited_ms > 20000) throw HarnessError{"simulated process " + p.name + " made no request for 20 s (slot " + std::to_string(p.slot) + ")"};
+      if (waited_ms > hang_ms) {
+        // the program computes (or sleeps in a call the model does not know) without ever asking the kernel for anything: every program of the
+        // suite is I/O bound, so this is an endless loop in user space
+        std::string prog = p.name.substr(p.name.rfind('/') == std::string::npos ? 0 : p.name.rfind('/') + 1);
+        throw Hang{"hang:" + prog + ":no-system-call", p.name + " made no system call for " + std::to_string(hang_ms / 1000) + " s of real time after " + std::to_string(p.nsteps) + " calls (endless loop in user space)" + (crash_context.empty() ? "" : "; input: " + crash_context)};
+      }
       if (waited_ms % 200 == 0 && p.realpid > 0) {
         int st; pid_t r = waitpid(p.realpid, &st, WNOHANG);
         if (r == p.realpid || (r == -1 && !proc_alive(p.realpid))) {
@@ -388,7 +395,10 @@ struct World {
     scn->setup(*this);
     for (;;) {
       if (aborted) break;
-      if (total_steps > max_steps) throw HarnessError{"execution exceeded the step horizon (" + std::to_string(max_steps) + ")"};
+      if (total_steps > max_steps) {
+        std::string who; for (auto &pp : procs) if (pp && pp->st == P_PENDING && pp->vpid == cur) who = pp->name;
+        throw Hang{"hang:step-horizon:" + who.substr(who.rfind('/') == std::string::npos ? 0 : who.rfind('/') + 1), "the execution did not come to an end within " + std::to_string(max_steps) + " system calls; running: " + who + (crash_context.empty() ? "" : "; input: " + crash_context)};
+      }
       std::vector<Proc *> en;
       Proc *curp = nullptr;
       for (auto &pp : procs) { Proc *p = pp.get(); if (p && p->st == P_PENDING && enabled(*p)) { if (p->vpid == cur) curp = p; else en.push_back(p); } }
